@@ -1,4 +1,5 @@
 import WfModel.MigrateShipped
+import WfModel.MigrateConn
 import Driver.Engine
 open Migrate Drv.Engine
 /-! Line protocol for M11 (`wfdriver migrate`).  The driver keeps one database state.
@@ -12,6 +13,13 @@ open Migrate Drv.Engine
     parse <STR>                parse_target_version
     load <FILES>               iter_migration_files + versions: name:version ...
     classes                    the Unicode tables the header parser uses
+    session <SOURCES>          one process start: connect, run_migrations, close WITHOUT commit; answers the
+                               re-opened file and whether a transaction was still open at close
+    sessionshipped             the same with the shipped directory
+    durables <SOURCES>         the successive distinct file contents while a run proceeds (what a kill at
+                               any point leaves), ' ## ' separated; state unchanged
+    durablesshipped
+    pick <n>                   the file becomes the n-th state of the last `durables` answer
 
   STR = 's' + comma separated code points;  SOURCES = n (STR FILES)*;  FILES = n (STR STR STMTS)*;
   STMTS = n STMT*;  STMT = ct b STR n (STR STR)* | ac STR STR STR | ci b b STR STR n STR* | inv -/
@@ -62,7 +70,13 @@ def showResult : Result → Db × String
   | .ok db => (db, "ok " ++ showDb db)
   | .failed f db => (db, s!"failed {f} " ++ showDb db)
 
-def step (db : Db) (line : String) : Db × String :=
+def showSession (r : Result × Bool) : Db × String :=
+  let (db, s) := showResult r.1
+  (db, s ++ s!" pending={if r.2 then 1 else 0}")
+
+def showDurables (ds : List Db) : String := " ## ".intercalate (ds.map showDb)
+
+def stepDb (db : Db) (line : String) : Db × String :=
   match tokens line with
   | ["fresh"] => (fresh, showDb fresh)
   | ["setuv", n] =>
@@ -98,5 +112,28 @@ def step (db : Db) (line : String) : Db × String :=
   | ["classes"] =>
     (db, s!"breaks={lineBreaks} spaces={spaces} zeros={digitZeros}")
   | _ => (db, "bad-op")
+
+/-- driver state: the database file and the answer of the last `durables` -/
+def step (st : Db × List Db) (line : String) : (Db × List Db) × String :=
+  let db := st.1
+  match tokens line with
+  | "session" :: ts =>
+    match counted source ts with
+    | some (srcs, []) => let (db', s) := showSession (session srcs db); ((db', st.2), s)
+    | _ => (st, "bad-op")
+  | ["sessionshipped"] => let (db', s) := showSession (session shippedSources db); ((db', st.2), s)
+  | "durables" :: ts =>
+    match counted source ts with
+    | some (srcs, []) => let ds := durables srcs db; ((db, ds), showDurables ds)
+    | _ => (st, "bad-op")
+  | ["durablesshipped"] => let ds := durables shippedSources db; ((db, ds), showDurables ds)
+  | ["pick", n] =>
+    match n.toNat? with
+    | some i =>
+      match st.2[i]? with
+      | some d => ((d, st.2), showDb d)
+      | none => (st, "bad-op")
+    | none => (st, "bad-op")
+  | _ => let (db', s) := stepDb db line; ((db', st.2), s)
 
 end Drv.Migrate
